@@ -12,10 +12,10 @@ from ..engine import QUICK, THOROUGH, Ctx, Part, Property, Violation
 
 class Forms(Part):
     name = "forms"
-    examples = {QUICK: 1000, THOROUGH: 20000}
+    examples = {QUICK: 1200, THOROUGH: 20000}
 
     def strategy(self, tier: str) -> t.Any:
-        tape = st.one_of(st.just([]), st.lists(st.integers(0, 255), min_size=8, max_size=400), st.lists(st.integers(0, 255), min_size=8, max_size=400), st.binary(min_size=40, max_size=400).map(list))
+        tape = st.one_of(st.lists(st.integers(0, 255), min_size=4, max_size=48), st.binary(min_size=8, max_size=64).map(list))
         kinds = st.sampled_from(
             [
                 ["length", "true", "default", "trailing"],
